@@ -91,6 +91,18 @@ def c09(tier, rng):
                 cases.append(run_case('lex', first + ch, label='low-byte-twin'))
             cases.append(run_case('lex', ch + '=', label='low-byte-twin'))
             cases.append(run_case('lex', 'x ' + ch + ' y\n@', label='low-byte-twin'))
+    # very many DISTINCT lexemes in one text (a table keyed by anything shorter than the lexeme itself shows here:
+    # 300 000 names make about ten pairs agree on any 32-bit key)
+    for k_, (alpha_, cnt) in enumerate([('abcdefghijklmnopqrstuvwxyz_', 300000 if tier == 'quick' else 1000000), ('কখগঘঙচছজঝঞটঠডঢণতথদধনপফবভমযরল_', 200000), ('0123456789', 200000), ('০১২৩৪৫৬৭৮৯', 100000)]):
+        import random as _random
+        r_ = _random.Random(rng.fork(5000 + k_).next())      # derived from the one campaign seed
+        seen_ = set()
+        while len(seen_) < cnt:
+            w_ = ''.join(r_.choices(alpha_, k=r_.randint(3, 11)))
+            if alpha_[0] in '0০':
+                w_ = alpha_[r_.randint(1, 9)] + w_ + '.' + alpha_[r_.randint(0, 9)] + alpha_[r_.randint(1, 9)]
+            seen_.add(w_)
+        cases.append(run_case('lex', ' '.join(sorted(seen_)), label='many-distinct-lexemes'))
     # single code points
     step = 1 if tier == 'thorough' else 23
     cps = list(range(0, 0x3100)) + list(range(0x3100, 0x110000, step)) + [0xD7FF, 0xE000, 0xFFFD, 0xFFFF, 0x10000, 0x10FFFF]
@@ -108,7 +120,7 @@ def c09(tier, rng):
         cases.append(Case('bad-utf8', req('lex', bs), LEXKEYS, src=bs.decode('latin1')))
     rule = (f'every string of <= {maxlen} fragments over {len(FRAGS)} lexical fragments' +
             (f', every string of <= 4 over {len(FRAGS_SMALL)} fragments' if tier == 'thorough' else '') +
-            f'; characters whose low byte is an operator / digit / quote / blank character, after each operator prefix ({len(opchars)} x {len(highs)} code points x 15 contexts); {len(keyword_lookalikes())} keyword look-alikes (other normalisation forms, joiners, neighbours); {len(WORDS)} natural-language words (Bangla and English logic / arithmetic / control words that are NOT keywords) in 9 contexts; single code points (step {step} above U+3100, all below, each also inside a word); {n} seeded random texts with '
+            f'; characters whose low byte is an operator / digit / quote / blank character, after each operator prefix ({len(opchars)} x {len(highs)} code points x 15 contexts); four texts of 100 000 – 1 000 000 distinct names / numbers in either script; {len(keyword_lookalikes())} keyword look-alikes (other normalisation forms, joiners, neighbours); {len(WORDS)} natural-language words (Bangla and English logic / arithmetic / control words that are NOT keywords) in 9 contexts; single code points (step {step} above U+3100, all below, each also inside a word); {n} seeded random texts with '
             'multi-line strings and comments; malformed UTF-8. Non-trivial = produces a token other than EOF or a diagnostic.')
     return {'cases': cases, 'rule': rule, 'exhaustive': True}
 
